@@ -249,6 +249,7 @@ func init() {
 		m.sleep(args[0])
 		return nil
 	})
+	reg(vfPkg+".Advanced", func(m *Machine, fr *frame, fn *ssa.Function, args []value) value { return int64(0) })
 	reg(vfPkg+".NowNanos", func(m *Machine, fr *frame, fn *ssa.Function, args []value) value {
 		return m.mul64(m.now(), msNs)
 	})
